@@ -89,9 +89,12 @@ def run(ctx):
         rep.floor('R1', 'optimisation stages in the replica pipeline', nstage, 3, where(b))
         # empty set of replicas: None -> Err, not a panic
         allsteps = steps + steps2
-        rep.check(any('ok_or' in s for s in allsteps) and not any(s.endswith(('unwrap', 'expect')) for s in allsteps),
+        # anyhow's `Context` on an Option is ok_or_else(|| anyhow!(context)): None -> Err
+        opt_ctx = any(s.endswith(('for std::option::Option<T>>::context', 'for std::option::Option<T>>::with_context'))
+                      for s in allsteps)
+        rep.check((any('ok_or' in s for s in allsteps) or opt_ctx) and not any(s.endswith(('unwrap', 'expect')) for s in allsteps),
                   'R1', 'empty-reduction-is-an-error', where(b, red['bb']),
-                  'None from max is mapped to Err by ok_or_else and propagated with ?',
+                  'None from max is mapped to Err by ok_or_else / Option::context and propagated with ?',
                   'the result of max is unwrapped: zero replications would panic')
         # R6: the range end is the count parameter; a replica does not depend on it
         cnt_local = None
